@@ -993,3 +993,41 @@ def omen_model_phase(prop, tier, base_seed):
                 "property": prop, "kind": "shipped_ruleset:" + r["problem"][0], "key": None,
                 "detail": dict(r["problem"][1], ruleset="Default")}, "case": None})
     return out
+
+
+# ---------------------------------------------------------------------------
+# realistic training passwords: derivations sampled from a shipped ruleset (read by RefRuleset, no repository code)
+
+def realistic_passwords(t, count, name="Default"):
+    """`count` passwords drawn from the shipped ruleset's own grammar, skewed towards probable structures and values:
+    real words, years, keyboard walks, context strings, multi-words, capitalisation masks as 1 M real users chose them"""
+    if name not in available():
+        return []
+    ref = ref_for(name)
+    bases = [b for b in ref.base if "M" not in b["replacements"]][:4000]
+    out = []
+    tries = 0
+    while len(out) < count and tries < count * 3:
+        tries += 1
+        b = bases[min(t.draw(len(bases)), t.draw(len(bases)), t.draw(len(bases)))]
+        segs = []
+        ok = True
+        for r in b["replacements"]:
+            groups = ref.vars.get(r)
+            if not groups:
+                ok = False
+                break
+            g = groups[min(t.draw(len(groups)), t.draw(len(groups)))]
+            v = g["values"][t.draw(len(g["values"]))]
+            if r[0] == "C":
+                if not segs or len(segs[-1]) != len(v):
+                    ok = False
+                    break
+                segs[-1] = "".join(c.upper() if m == "U" else c for c, m in zip(segs[-1], v))
+            else:
+                segs.append(v)
+        if ok:
+            pw = "".join(segs)
+            if pw and len(pw) <= 21:
+                out.append(pw)
+    return out
